@@ -86,6 +86,13 @@ def gen_spline(rng, S, tier, allow_per=True, nmax=None):
         xs = [x * 2.0 ** k for x in xs]
         c = rng.choice(["nak", "nat", "cla"] + (["per"] if allow_per else []))
         bc, lanes = (c, "per") if c == "per" else (c, [(c, c)] * L)
+    elif S == "F" and rng.random() < 0.12:
+        # units beyond that (interval lengths 2^-640 .. 2^-520 and 2^520 .. 2^640: already their squares / pairwise products leave
+        # the number range; seed C02-r5m2): the rows of Clamped and Periodic systems only ever hold first powers
+        k = rng.choice([-1, 1]) * rng.randint(520, 640)
+        xs = [x * 2.0 ** k for x in xs]
+        c = rng.choice(["cla", "cla"] + (["per"] if allow_per and n >= 4 else []))      # (the 3-point periodic closed form squares)
+        bc, lanes = (c, "per") if c == "per" else (c, [(c, c)] * L)
     if bc == "per":
         flat[(n - 1) * L:] = flat[:L]
     return shape, xs, flat, bc, lanes
@@ -195,8 +202,52 @@ def extra(rng, tier):
         hs = [b - a for a, b in zip(xs, xs[1:])]
         unit = 2.0 ** (math.frexp(max(hs))[1] if not (-300 < math.frexp(max(hs))[1] < 300) else 0)   # axes in extreme units: compare in that unit
         metas.append((max(abs(v) for v in flat) + 10.0, max(hs) / min(hs), max(hs) / unit))
+    # lanes of very different magnitude, lanes holding inf / NaN (seed C02-r5m1: a right-hand side normalised by its largest entry over
+    # ALL lanes): every finite lane of the n-d spline must be the spline of that lane alone
+    lane_lines, lane_checks = [], []
+    for _ in range(gen.N(tier, 40, 800)):
+        n, L = rng.choice([3, 4, 5, 7]), rng.choice([2, 3, 4])
+        xs = gen.axis_f(rng, n, rng.choice(["unit", "uniform", "random", "geometric"]))
+        bc = rng.choice(["nak", "nat", "cla"])
+        fac = [rng.choice([1.0, 1.0, 1e300, 1e-25, 1e-300, "inf", "nan", 1e150]) for _ in range(L)]
+        if all(f == 1.0 for f in fac):
+            fac[rng.randrange(L)] = rng.choice([1e300, "inf", "nan"])
+        cols = []
+        for f in fac:
+            col = [rng.uniform(-4, 4) for _ in range(n)]
+            if f == "inf":
+                col[rng.randrange(n)] = rng.choice([math.inf, -math.inf])
+            elif f == "nan":
+                col[rng.randrange(n)] = math.nan
+            else:
+                col = [v * f for v in col]
+            cols.append(col)
+        flat = [cols[j][i] for i in range(n) for j in range(L)]
+        qs = sample_queries(xs, "F")
+        ext = rng.random() < 0.3
+        trailing = [L] if L != 4 or rng.random() < 0.5 else [2, 2]
+        b = len(lane_lines)
+        lane_lines.append(i1_line("F", xs, [n] + trailing, flat, ("spl", ext, bc), e_array("F", [len(qs)], qs), dlay=rng.choice(gen.LAYS_ND)))
+        for j, f in enumerate(fac):
+            if f in ("inf", "nan"):
+                continue
+            lane_lines.append(i1_line("F", xs, [n], cols[j], ("spl", ext, bc), e_array("F", [len(qs)], qs)))
+            lane_checks.append((b, len(lane_lines) - 1, j, L, max(abs(v) for v in cols[j])))
+    lane_outs = vlib.run_impl_only(ID, lane_lines, tag="f64lanes")
+    lane_fails = []
+    for b, s, j, L, scale in lane_checks:
+        rb, rs = Result(lane_outs[b]), Result(lane_outs[s])
+        if rb.kind != "ok" or rs.kind != "ok":
+            lane_fails.append({"line": lane_lines[b], "impl": lane_outs[b][:200], "required": f"n-d spline and the spline of lane {j} alone (`{lane_lines[s][:200]}`) must both answer: {lane_outs[s][:80]}"})
+            continue
+        got, want = rb.floats()[j::L], rs.floats()
+        for k_, (g, w) in enumerate(zip(got, want)):
+            if not (math.isfinite(g) and abs(g - w) <= 1e-9 * scale) and not (g != g and w != w) and g != w:
+                lane_fails.append({"line": lane_lines[b], "impl": lane_outs[b][:300],
+                                   "required": f"lane {j} (finite data) of the n-d spline must be the spline of that lane alone (`{lane_lines[s][:300]}`): sample {k_} is {g}, alone {w}"})
+                break
     outs = vlib.run_impl_only(ID, lines, tag="f64")
-    fails = []
+    fails = list(lane_fails)
     worst = 0.0
     for k, (scale, ratio, hmax) in enumerate(metas):
         rf, rq = Result(outs[2 * k]), Result(outs[2 * k + 1])
@@ -211,5 +262,5 @@ def extra(rng, tier):
                 fails.append({"line": lines[2 * k], "impl": outs[2 * k][:200],
                               "required": f"f64 value {g} differs from the exact value {float(e)} by {err:.3e} > tolerance {tol:.3e}"})
                 break
-    return {"evaluations": len(lines), "failures": fails, "hist": {"f64_vs_exact_pairs": len(metas)},
+    return {"evaluations": len(lines) + len(lane_lines), "failures": fails, "hist": {"f64_vs_exact_pairs": len(metas), "f64_lane_vs_alone": len(lane_checks)},
             "notes": [f"worst f64 error / tolerance = {worst:.3e}"]}
